@@ -123,6 +123,22 @@ theorem effective_append (l₁ l₂ : List (K × K)) : effective (l₁ ++ l₂) 
 theorem effective_cons (p : K × K) (l : List (K × K)) : effective (p :: l) = effective [p] ++ effective l := by
   rw [← effective_append]; rfl
 
+theorem wtot_effective (l : List (K × K)) : wtot (effective l) = wtot l := by
+  induction l with
+  | nil => rfl
+  | cons p l ih =>
+    by_cases hp : p.2 = 0
+    · simp [effective, hp] at ih ⊢; exact ih
+    · simp [effective, hp] at ih ⊢; rw [ih]
+
+theorem wxsum_effective (l : List (K × K)) : wxsum (effective l) = wxsum l := by
+  induction l with
+  | nil => rfl
+  | cons p l ih =>
+    by_cases hp : p.2 = 0
+    · simp [effective, hp] at ih ⊢; exact ih
+    · simp [effective, hp] at ih ⊢; rw [ih]
+
 /-- the weighted summary of a sequence of (x, w): `initialize`, then `add` for every pair in turn -/
 def wrun (D : K) (s0 : WtdSummary K) (l : List (K × K)) : WtdSummary K :=
   l.foldl (fun s p => (cmb_wtdsummary_add s p.1 p.2).2) (cmb_wtdsummary_initialize D s0)
